@@ -23,7 +23,7 @@ def _call_sites(writer, real=False):
     n = {"n": 0}
 
     def tracer(frame, event, arg):
-        if event == "call" and export._is_lib(frame.f_code.co_filename):
+        if event == "call" and export.is_lib_call(frame):
             n["n"] += 1
             key = (os.path.basename(frame.f_code.co_filename), frame.f_code.co_name, frame.f_code.co_firstlineno)
             sites.setdefault(key, n["n"])
